@@ -9,7 +9,7 @@ import ast
 import hashlib
 import os
 import re
-from typing import Callable, Dict, Iterable, Iterator, List, Optional, Sequence, Tuple, Union
+from typing import Any, Callable, Dict, Iterable, Iterator, List, Optional, Sequence, Tuple, Union
 
 
 class AnalysisError(Exception):
@@ -176,6 +176,76 @@ def unroll_table_loops(tree: ast.Module) -> int:
     if done:
         ast.fix_missing_locations(tree)
     return done
+
+
+def fold_small_constants(fn: ast.AST) -> ast.AST:
+    """A copy of `fn` in which (a) locals assigned exactly once, from an int literal, are replaced by that literal, (b) arithmetic on int
+    literals is folded (`4 * 16` -> 64, `x + 0` -> x), and (c) a comprehension `[e(i) for i in range(N)]` with a literal N <= 8 and no filter
+    is written out as the list of its N elements.  Rules that read offsets and strides as literals use it to read the same numbers when a
+    refactoring has given them names."""
+    import copy
+    fn = copy.deepcopy(fn)
+    stores: Dict[str, List[ast.AST]] = {}
+    for n in ast.walk(fn):
+        if isinstance(n, ast.Name) and isinstance(n.ctx, ast.Store):
+            stores.setdefault(n.id, []).append(n)
+    consts: Dict[str, int] = {}
+    for n in ast.walk(fn):
+        tgt = n.targets[0] if isinstance(n, ast.Assign) and len(n.targets) == 1 else (n.target if isinstance(n, ast.AnnAssign) else None)
+        val = getattr(n, 'value', None)
+        if isinstance(tgt, ast.Name) and len(stores.get(tgt.id, [])) == 1 and isinstance(val, ast.Constant) and isinstance(val.value, int) and not isinstance(val.value, bool):
+            consts[tgt.id] = val.value
+
+    class Fold(ast.NodeTransformer):
+        def __init__(self, env: Dict[str, int]) -> None:
+            self.env = env
+
+        def visit_Name(self, n: ast.Name) -> ast.AST:      # noqa: N802
+            if isinstance(n.ctx, ast.Load) and n.id in self.env:
+                return ast.copy_location(ast.Constant(value=self.env[n.id]), n)
+            return n
+
+        def visit_BinOp(self, n: ast.BinOp) -> ast.AST:      # noqa: N802
+            self.generic_visit(n)
+            l_, r_ = n.left, n.right
+            ci = lambda x: isinstance(x, ast.Constant) and isinstance(x.value, int) and not isinstance(x.value, bool)      # noqa: E731
+            if ci(l_) and ci(r_) and isinstance(n.op, (ast.Add, ast.Sub, ast.Mult)):
+                v = {ast.Add: l_.value + r_.value, ast.Sub: l_.value - r_.value, ast.Mult: l_.value * r_.value}[type(n.op)]
+                return ast.copy_location(ast.Constant(value=v), n)
+            if isinstance(n.op, ast.Add) and ci(r_) and r_.value == 0:
+                return l_
+            if isinstance(n.op, ast.Add) and ci(l_) and l_.value == 0:
+                return r_
+            if isinstance(n.op, ast.Mult) and ci(r_) and r_.value == 1:
+                return l_
+            if isinstance(n.op, ast.Mult) and ci(l_) and l_.value == 1:
+                return r_
+            return n
+
+        def _expand(self, n: Any) -> Optional[ast.AST]:
+            if len(n.generators) != 1:
+                return None
+            g = n.generators[0]
+            if g.ifs or g.is_async or not isinstance(g.target, ast.Name):
+                return None
+            it = g.iter
+            if not (isinstance(it, ast.Call) and isinstance(it.func, ast.Name) and it.func.id == 'range' and len(it.args) == 1):
+                return None
+            cnt = Fold(self.env).visit(copy.deepcopy(it.args[0]))
+            if not (isinstance(cnt, ast.Constant) and isinstance(cnt.value, int) and 0 <= cnt.value <= 8):
+                return None
+            elts = [Fold({**self.env, g.target.id: k}).visit(copy.deepcopy(n.elt)) for k in range(cnt.value)]
+            return ast.copy_location(ast.List(elts=elts, ctx=ast.Load()), n)
+
+        def visit_ListComp(self, n: ast.ListComp) -> ast.AST:      # noqa: N802
+            ex = self._expand(n)
+            if ex is not None:
+                return ex
+            self.generic_visit(n)
+            return n
+    out = Fold(consts).visit(fn)
+    ast.fix_missing_locations(out)
+    return out
 
 
 class Module:
